@@ -17,7 +17,7 @@
    their conclusions: the results are functions of the data alone. *)
 From Coq Require Import List NArith Arith Lia.
 From NV Require Import Io.Source Io.ReadExact Io.ReadExactProofs Io.BufReader Io.BufReaderProofs
-  Io.Prog Io.ProgProofs Io.IndexProg Io.IndexProgProofs Io.ProgCram Io.ProgRun Io.ProgRunProofs Io.CsiProg Io.CsiProgProofs Io.HeaderAdapter Io.HeaderAdapterProofs Io.SeqRead Io.SeqReadProofs Io.SeqRun Io.SeqRunProofs Io.TabixProg Io.TabixProgProofs
+  Io.Prog Io.ProgProofs Io.IndexProg Io.IndexProgProofs Io.ProgCram Io.ProgRun Io.ProgRunProofs Io.CsiProg Io.CsiProgProofs Io.HeaderAdapter Io.HeaderAdapterProofs Io.SeqRead Io.SeqReadProofs Io.SeqRun Io.SeqRunProofs Io.TabixProg Io.TabixProgProofs Io.CsiBodyProg Io.CsiBodyProgProofs
   Io.FastaScan Io.FastaScanProofs Io.FastaIndex Io.FastaIndexProofs Io.FastqRead Io.FastqReadProofs Io.HeaderRead Io.HeaderReadProofs Io.BgzfRead Io.BgzfReadProofs Io.BedRead Io.BedReadProofs Io.BedBridge Io.TabRead Io.TabReadProofs Io.Run Io.RunProofs.
 From NV Require Fasta.Layout Fasta.Indexer Fasta.WholeFile Fasta.Fastq Bgzf.Frame Bgzf.Reader Bgzf.ReaderOps
   Text.TextBase Text.BedRec Index.Layout Index.CsiLayout Index.TextIndex Trunc.Stream Trunc.Cram CramIdx.AsyncQuery Bgzf.Crc32.
@@ -851,6 +851,55 @@ Theorem c12_tabix_clean_stream : forall inflate data sc cap fs,
     (cres_of (fst (run_pure p_tabix d)), length (snd (run_pure p_tabix d))).
 Proof. exact run_tabix_clean. Qed.
 Print Assumptions c12_tabix_clean_stream.
+
+(* ---- csi::io::Reader::read_index (the CSI index body) stacked on the BGZF block reader (NV.Io.CsiBodyProg) *)
+(* reads made through `Read::take(L)`: the program [limit L p] (every read_exact loop / read_to_end
+   asks the inner reader for min(n, limit left) bytes) returns what p returns on the first L
+   bytes, and leaves in the stream what p leaves of them followed by the bytes behind the limit *)
+Theorem c12_take_limit_is_prefix : forall (A : Type) (p : prog A) L d,
+  until_free p ->
+  run_pure (limit L p) d
+  = (fst (run_pure p (firstn L d)), snd (run_pure p (firstn L d)) ++ skipn L d).
+Proof. exact run_pure_limit. Qed.
+Print Assumptions c12_take_limit_is_prefix.
+
+(* read_aux with l_aux > 0: the csi header reader on the l_aux bytes behind the length field; the
+   bytes of the take it leaves are not skipped *)
+Theorem c12_csi_aux_through_take : forall l d,
+  (0 < l)%N -> (l < 2147483648)%N -> 4 <= length (firstn 4 d) ->
+  NV.Base.LE.le_dec (firstn 4 d) = l ->
+  let r := skipn 4 d in
+  let L := N.to_nat l in
+  run_pure g_aux d
+  = match fst (run_pure g_header (firstn L r)) with
+    | RVal h => (RVal (Some h), snd (run_pure g_header (firstn L r)) ++ skipn L r)
+    | RErr e => (RErr e, snd (run_pure g_header (firstn L r)) ++ skipn L r)
+    end.
+Proof. exact run_pure_g_aux_positive. Qed.
+Print Assumptions c12_csi_aux_through_take.
+
+(* the whole CSI read_index (magic, min_shift, depth, binning scheme, l_aux + aux through the take,
+   n_ref, bins with loffset and the depth-dependent metadata pseudo-bin, duplicates, optional
+   n_no_coor, every error reported as InvalidData) over ANY delivery of the decompressed bytes *)
+Theorem c12_csi_body_any_delivery : forall data sc cap chunk,
+  run_csi_plain cap chunk (mkSource data sc)
+  = (cres_of (fst (run_pure p_csi data)), length (snd (run_pure p_csi data))).
+Proof. exact run_csi_plain_spec. Qed.
+Print Assumptions c12_csi_body_any_delivery.
+
+(* the stack: over the BGZF frames read from ANY delivery of the COMPRESSED file *)
+Theorem c12_csi_over_bgzf_any_delivery : forall inflate data sc cap,
+  run_csi inflate cap (mkSource data sc) = whole_over_bgzf p_csi inflate data.
+Proof. exact run_csi_spec. Qed.
+Print Assumptions c12_csi_over_bgzf_any_delivery.
+
+Theorem c12_csi_clean_stream : forall inflate data sc cap fs,
+  whole_frames inflate (Datatypes.S (length data)) data = (fs, Bgzf.Frame.Ok tt) ->
+  run_csi inflate cap (mkSource data sc)
+  = let d := concat (map Bgzf.ReaderOps.fdata fs) in
+    (cres_of (fst (run_pure p_csi d)), length (snd (run_pure p_csi d))).
+Proof. exact run_csi_clean. Qed.
+Print Assumptions c12_csi_clean_stream.
 
 (* ---- non-vacuity *)
 (* a script with 1-byte deliveries and an Interrupted in the middle: read_exact 4 of "abcdef" *)
